@@ -98,4 +98,9 @@ def sortClasses (u : Universe) (fuel : Nat) (roots : List Name) : Option (Option
     | some (_, true) => some none
     | some (order, false) => some (some (order.filter u.hasApi))
 
+/-- `classes_from_kernels` for one kernel description: the classes with a C API among the argument types and the
+return type (`(class, hasApi)` pairs) -/
+def kernelClasses (args : List (Name × Bool)) (ret : Option (Name × Bool)) : List Name :=
+  (args.filter (·.2)).map (·.1) ++ (match ret with | some (c, true) => [c] | _ => [])
+
 end Topo
